@@ -6,10 +6,16 @@ package c10
 // node i on the in-memory network with the real Eth2 verifier and the real duty gater.
 
 import (
+	"bytes"
 	"context"
 	"encoding/json"
 	"fmt"
+	"io"
 	"math/rand"
+	"net/http"
+	"net/http/httptest"
+	"net/http/httputil"
+	"net/url"
 	"sync"
 	"sync/atomic"
 	"testing"
@@ -17,6 +23,7 @@ import (
 
 	eth2api "github.com/attestantio/go-eth2-client/api"
 	eth2v1 "github.com/attestantio/go-eth2-client/api/v1"
+	eth2http "github.com/attestantio/go-eth2-client/http"
 	eth2p0 "github.com/attestantio/go-eth2-client/spec/phase0"
 	k1 "github.com/decred/dcrd/dcrec/secp256k1/v4"
 	"github.com/libp2p/go-libp2p/core/host"
@@ -24,6 +31,9 @@ import (
 	"github.com/libp2p/go-libp2p/core/protocol"
 	"google.golang.org/protobuf/proto"
 
+	"github.com/rs/zerolog"
+
+	"github.com/obolnetwork/charon/app/eth2wrap"
 	"github.com/obolnetwork/charon/cluster"
 	"github.com/obolnetwork/charon/core"
 	"github.com/obolnetwork/charon/core/parsigex"
@@ -104,7 +114,13 @@ type world struct {
 	lock     cluster.Lock
 	pubShare map[core.PubKey]map[int]tbls.PublicKey
 
-	bmock beaconmock.Mock
+	bmock  beaconmock.Mock
+	client eth2wrap.Client // what the components talk to: the mock itself, or (prod) charon's production http adapter
+	prod   bool
+	proxy  *httptest.Server
+	// prodForks is the harness' own statement of the chain's fork schedule in a production-client
+	// world (the proxy serves it; the oracle never reads it back from the client).
+	prodForks []forkDef
 
 	// chain parameters, read back from the mock (independent domain computation)
 	spe          uint64
@@ -145,7 +161,76 @@ type world struct {
 }
 
 func (w *world) close() {
+	if w.proxy != nil {
+		w.proxy.Close()
+	}
 	_ = w.bmock.Close()
+}
+
+type forkDef struct {
+	Name    string
+	Version eth2p0.Version
+	Epoch   uint64
+}
+
+// mainnetLikeForks: mainnet's fork versions (genesis 0x00000000 is a lock fork version charon
+// maps to CapellaHardFork 0x03000000), none of the forks at genesis.
+var mainnetLikeForks = []forkDef{
+	{"GENESIS", eth2p0.Version{0, 0, 0, 0}, 0},
+	{"ALTAIR", eth2p0.Version{1, 0, 0, 0}, 10},
+	{"BELLATRIX", eth2p0.Version{2, 0, 0, 0}, 20},
+	{"CAPELLA", eth2p0.Version{3, 0, 0, 0}, 100},
+	{"DENEB", eth2p0.Version{4, 0, 0, 0}, 200},
+	{"ELECTRA", eth2p0.Version{5, 0, 0, 0}, 300},
+}
+
+// specProxy puts the beacon mock's HTTP server behind a reverse proxy that rewrites the fork
+// related keys of /eth/v1/config/spec and the genesis fork version.
+func specProxy(target string, forks []forkDef) (*httptest.Server, error) {
+	u, err := url.Parse(target)
+	if err != nil {
+		return nil, err
+	}
+	rp := httputil.NewSingleHostReverseProxy(u)
+	rp.ModifyResponse = func(resp *http.Response) error {
+		path := resp.Request.URL.Path
+		if path != "/eth/v1/config/spec" && path != "/eth/v1/beacon/genesis" {
+			return nil
+		}
+		body, err := io.ReadAll(resp.Body)
+		if err != nil {
+			return err
+		}
+		_ = resp.Body.Close()
+		var doc struct {
+			Data map[string]any `json:"data"`
+		}
+		if err := json.Unmarshal(body, &doc); err != nil {
+			return err
+		}
+		if path == "/eth/v1/beacon/genesis" {
+			doc.Data["genesis_fork_version"] = fmt.Sprintf("%#x", forks[0].Version)
+		} else {
+			doc.Data["GENESIS_FORK_VERSION"] = fmt.Sprintf("%#x", forks[0].Version)
+			for _, f := range forks[1:] {
+				doc.Data[f.Name+"_FORK_VERSION"] = fmt.Sprintf("%#x", f.Version)
+				doc.Data[f.Name+"_FORK_EPOCH"] = fmt.Sprint(f.Epoch)
+			}
+			doc.Data["FULU_FORK_VERSION"] = "0x06000000"
+			doc.Data["FULU_FORK_EPOCH"] = "18446744073709551615"
+		}
+		nb, err := json.Marshal(doc)
+		if err != nil {
+			return err
+		}
+		resp.Body = io.NopCloser(bytes.NewReader(nb))
+		resp.ContentLength = int64(len(nb))
+		resp.Header.Set("Content-Length", fmt.Sprint(len(nb)))
+
+		return nil
+	}
+
+	return httptest.NewServer(rp), nil
 }
 
 func (w *world) now() time.Time {
@@ -165,9 +250,9 @@ func mustJSON(v any) string {
 	return string(b)
 }
 
-func newWorld(t *testing.T, rng *rand.Rand) (*world, error) {
+func newWorld(t *testing.T, rng *rand.Rand, prod bool) (*world, error) {
 	w := &world{
-		t: t, rng: rng,
+		t: t, rng: rng, prod: prod,
 		byIndex: map[eth2p0.ValidatorIndex]*valInfo{}, byCore: map[core.PubKey]*valInfo{},
 		pubShare:   map[core.PubKey]map[int]tbls.PublicKey{},
 		proposerAt: map[uint64]*valInfo{}, proposals: map[uint64]*eth2api.VersionedProposal{},
@@ -190,11 +275,26 @@ func newWorld(t *testing.T, rng *rand.Rand) (*world, error) {
 	gv = eth2p0.Version{0x10, 0x00, 0x09, 0x10} // GENESIS_FORK_VERSION of the mock's static spec
 	rng.Read(v1[:])
 	rng.Read(v2[:])
-	sched := map[string]any{"data": []map[string]string{
+	schedRows := []map[string]string{
 		{"previous_version": fmt.Sprintf("%#x", gv), "current_version": fmt.Sprintf("%#x", gv), "epoch": "0"},
 		{"previous_version": fmt.Sprintf("%#x", gv), "current_version": fmt.Sprintf("%#x", v1), "epoch": fmt.Sprint(midEpoch)},
 		{"previous_version": fmt.Sprintf("%#x", v1), "current_version": fmt.Sprintf("%#x", v2), "epoch": fmt.Sprint(w.forkEpoch)},
-	}}
+	}
+	if prod {
+		// production-client world: a mainnet-like chain (the lock's fork version must be one charon
+		// knows, the adapter derives the Capella version from it), every fork after genesis, the chain
+		// itself past Deneb / around the Electra fork.
+		w.prodForks = mainnetLikeForks
+		w.currentEpoch = 299 + uint64(rng.Intn(20))
+		w.forkEpoch = 300
+		schedRows = nil
+		prev := mainnetLikeForks[0].Version
+		for _, f := range mainnetLikeForks {
+			schedRows = append(schedRows, map[string]string{"previous_version": fmt.Sprintf("%#x", prev), "current_version": fmt.Sprintf("%#x", f.Version), "epoch": fmt.Sprint(f.Epoch)})
+			prev = f.Version
+		}
+	}
+	sched := map[string]any{"data": schedRows}
 	var gvr [32]byte
 	rng.Read(gvr[:])
 
@@ -319,6 +419,36 @@ func newWorld(t *testing.T, rng *rand.Rand) (*world, error) {
 	if err != nil {
 		return nil, err
 	}
+	w.client = w.bmock
+	if prod {
+		w.proxy, err = specProxy(w.bmock.Address(), w.prodForks)
+		if err != nil {
+			w.close()
+			return nil, err
+		}
+		svc, err := eth2http.New(context.Background(), eth2http.WithLogLevel(zerolog.Disabled), eth2http.WithAddress(w.proxy.URL), eth2http.WithTimeout(2*time.Minute))
+		if err != nil {
+			w.close()
+			return nil, err
+		}
+		httpSvc, ok := svc.(*eth2http.Service)
+		if !ok {
+			w.close()
+			return nil, fmt.Errorf("eth2http.New returned %T", svc)
+		}
+		// as eth2wrap.newBeaconClient builds it; fork version and validator cache set as app.Run does.
+		cl := eth2wrap.AdaptEth2HTTP(httpSvc, nil, 2*time.Minute)
+		cl.SetForkVersion([4]byte(w.prodForks[0].Version))
+		active, complete := eth2wrap.ActiveValidators{}, eth2wrap.CompleteValidators{}
+		for idx, val := range set {
+			active[idx] = val.Validator.PublicKey
+			complete[idx] = val
+		}
+		cl.SetValidatorCache(func(context.Context) (eth2wrap.ActiveValidators, eth2wrap.CompleteValidators, error) {
+			return active, complete, nil
+		})
+		w.client = cl
+	}
 	if err := w.readChain(); err != nil {
 		w.close()
 		return nil, err
@@ -360,7 +490,7 @@ func newWorld(t *testing.T, rng *rand.Rand) (*world, error) {
 	}
 
 	// validator API of node shareIdx
-	w.vapi, err = validatorapi.NewComponent(w.bmock, w.pubShare, w.shareIdx, func(core.PubKey) string { return "" }, rng.Intn(2) == 0, 30_000_000)
+	w.vapi, err = validatorapi.NewComponent(w.client, w.pubShare, w.shareIdx, func(core.PubKey) string { return "" }, rng.Intn(2) == 0, 30_000_000)
 	if err != nil {
 		w.close()
 		return nil, err
@@ -381,12 +511,12 @@ func newWorld(t *testing.T, rng *rand.Rand) (*world, error) {
 		}
 		w.peers = append(w.peers, id)
 	}
-	verify, err := parsigex.NewEth2Verifier(w.bmock, w.pubShare)
+	verify, err := parsigex.NewEth2Verifier(w.client, w.pubShare)
 	if err != nil {
 		w.close()
 		return nil, err
 	}
-	gater, err := core.NewDutyGater(context.Background(), w.bmock, core.WithDutyGaterForT(t, w.now, 2))
+	gater, err := core.NewDutyGater(context.Background(), w.client, core.WithDutyGaterForT(t, w.now, 2))
 	if err != nil {
 		w.close()
 		return nil, err
@@ -482,7 +612,7 @@ func (w *world) sender(j int) *parsigex.ParSigEx {
 
 func (w *world) readChain() error {
 	ctx := context.Background()
-	spec, err := w.bmock.Spec(ctx, &eth2api.SpecOpts{})
+	spec, err := w.client.Spec(ctx, &eth2api.SpecOpts{})
 	if err != nil {
 		return err
 	}
@@ -506,19 +636,39 @@ func (w *world) readChain() error {
 		return fmt.Errorf("unexpected GENESIS_FORK_VERSION %T", spec.Data["GENESIS_FORK_VERSION"])
 	}
 	w.genesisFork = gfv
-	gen, err := w.bmock.Genesis(ctx, &eth2api.GenesisOpts{})
+	gen, err := w.client.Genesis(ctx, &eth2api.GenesisOpts{})
 	if err != nil {
 		return err
 	}
 	w.genesisTime = gen.Data.GenesisTime
 	w.gvr = gen.Data.GenesisValidatorsRoot
-	fs, err := w.bmock.ForkSchedule(ctx, &eth2api.ForkScheduleOpts{})
+	fs, err := w.client.ForkSchedule(ctx, &eth2api.ForkScheduleOpts{})
 	if err != nil {
 		return err
 	}
 	w.forks = fs.Data
-	if len(w.forks) != 3 {
+	if !w.prod && len(w.forks) != 3 {
 		return fmt.Errorf("fork schedule override not effective: %d forks", len(w.forks))
+	}
+	if w.prod {
+		// the harness' own schedule is authoritative; what the client reports must agree with it,
+		// otherwise the proxy is not effective and the world would be meaningless.
+		if len(w.forks) != len(w.prodForks) || w.genesisFork != w.prodForks[0].Version {
+			return fmt.Errorf("proxy not effective: %d forks, genesis fork %#x", len(w.forks), w.genesisFork)
+		}
+		for i, f := range w.prodForks {
+			if uint64(w.forks[i].Epoch) != f.Epoch || w.forks[i].CurrentVersion != f.Version {
+				return fmt.Errorf("proxy not effective: fork %d is %v", i, w.forks[i])
+			}
+			if i > 0 {
+				if v, _ := spec.Data[f.Name+"_FORK_VERSION"].(eth2p0.Version); v != f.Version {
+					return fmt.Errorf("proxy not effective: spec %s_FORK_VERSION = %v", f.Name, spec.Data[f.Name+"_FORK_VERSION"])
+				}
+				if e, _ := spec.Data[f.Name+"_FORK_EPOCH"].(uint64); e != f.Epoch {
+					return fmt.Errorf("proxy not effective: spec %s_FORK_EPOCH = %v", f.Name, spec.Data[f.Name+"_FORK_EPOCH"])
+				}
+			}
+		}
 	}
 
 	return nil
